@@ -26,6 +26,8 @@ type Config struct {
 	MaxPermute     int
 	MaxBigBytes    int
 	Thorough       bool
+	NoMerge        bool
+	AssertTag      string
 	ExactNonlinear bool
 	NoBigMulSplit  bool
 	Workers        int
@@ -60,6 +62,8 @@ type Engine struct {
 	apiFuncs   map[*ssa.Function]string
 	mu         sync.Mutex
 	InitSec    float64
+	pdoms      map[*ssa.Function]*pdomInfo
+	noMerge    map[*ssa.If]bool
 	pathsSeen, witnessTaken int
 	InitIncomplete []string
 }
@@ -91,7 +95,7 @@ type PathResult struct {
 	Notes     map[string]bool
 	Events    []string
 	Observations map[string]string
-	AssertsChecked, AssertsDischarged, AssertsConst int
+	AssertsChecked, AssertsDischarged, AssertsConst, AssertsSkipped int
 	Steps     int
 	Forks     int
 	Assumes   []string
@@ -100,6 +104,7 @@ type PathResult struct {
 	SolverSecs float64
 	Witness   *Witness
 	ForkSites map[string]int
+	MergeStats [3]int
 }
 
 // Witness is a concrete input (solver model) that drives execution down one explored path,
@@ -141,6 +146,15 @@ type Path struct {
 	mutexes map[*Obj]int
 	assumes []string
 	ndNames map[string]int
+	decWhere []string
+	expWhere []string
+	journals []*journal
+	side    *Term // conjunction of the branch conditions of the merge attempts in progress
+	sideKnown []map[string]bool
+	sideMods int
+	mergeWhy string
+	lastMergeWhy string
+	mergeStats [3]int // attempted, merged, aborted
 	divCache map[string]*Term
 	ndiv    int
 	protoBlobs map[*Obj]protoBlob
@@ -172,7 +186,8 @@ func (p *Path) decl(name string, s Sort) *Term {
 		p.names[name] = 0
 	}
 	sym := "|v_" + name + "|"
-	if p.S != nil {
+	if p.S != nil && !p.declared[sym] {
+		p.declared[sym] = true
 		p.S.Send(fmt.Sprintf("(declare-fun %s () %s)", sym, s.SMT()))
 	}
 	return &Term{S: s, s: sym}
@@ -191,11 +206,167 @@ func (p *Path) assertPC(t *Term) {
 		}
 		return
 	}
+	if p.side != nil {
+		// inside a merge attempt: the fact only holds under the side condition
+		p.sideKnown[len(p.sideKnown)-1][t.s] = true
+		if p.S != nil {
+			p.S.Send("(assert (=> " + p.side.s + " " + t.s + "))")
+		}
+		return
+	}
 	p.pc = append(p.pc, t)
 	p.knownTrue[t.s] = true
 	if p.S != nil {
 		p.S.Send("(assert " + t.s + ")")
 	}
+}
+
+func (p *Path) isKnown(s string) bool {
+	if p.knownTrue[s] {
+		return true
+	}
+	for _, m := range p.sideKnown {
+		if m[s] {
+			return true
+		}
+	}
+	return false
+}
+
+type brResult int
+
+const (
+	brFalse brResult = iota
+	brTrue
+	brMergedJoin
+	brMergedReturn
+)
+
+// branch decides a symbolic If: known / forced / merged / forked.
+func (p *Path) branch(fr *frame, in *ssa.If, c *Term, pos token.Pos) brResult {
+	if c.c {
+		if c.u != 0 {
+			return brTrue
+		}
+		return brFalse
+	}
+	if p.S == nil {
+		panic("engine: symbolic condition in concrete mode: " + c.s)
+	}
+	nc := p.tb.Not(c)
+	if p.isKnown(c.s) {
+		return brTrue
+	}
+	if p.isKnown(nc.s) {
+		return brFalse
+	}
+	if p.side != nil {
+		// inside a merge attempt: no decisions are logged. Merging needs no feasibility knowledge
+		// (an infeasible side only contributes a dead ite branch), so it is tried first.
+		if m, ret := p.tryMerge(fr, in, c, pos, true); m {
+			if ret {
+				return brMergedReturn
+			}
+			return brMergedJoin
+		}
+		rt := p.S.CheckAssumingK("branch-in-side", "(and " + p.side.s + " " + c.s + ")")
+		rf := p.S.CheckAssumingK("branch-in-side", "(and " + p.side.s + " " + nc.s + ")")
+		switch {
+		case rt != Unsat && rf != Unsat:
+			panic(mergeAbort{"nested fork"})
+		case rt != Unsat:
+			p.sideKnown[len(p.sideKnown)-1][c.s] = true
+			return brTrue
+		case rf != Unsat:
+			p.sideKnown[len(p.sideKnown)-1][nc.s] = true
+			return brFalse
+		}
+		panic(mergeAbort{"infeasible side"})
+	}
+	di := len(p.decisions)
+	if di < len(p.prefix) {
+		d := p.prefix[di]
+		if d == 4 {
+			p.decisions = append(p.decisions, 4)
+			p.logDec("branch@" + p.where(fr, pos))
+			m, ret := p.tryMerge(fr, in, c, pos, true)
+			if !m {
+				p.decisions = p.decisions[:di]
+				p.abort("inconclusive", "a merge recorded for this prefix could not be reproduced at "+p.where(fr, pos)+": "+p.lastMergeWhy)
+			}
+			if ret {
+				return brMergedReturn
+			}
+			return brMergedJoin
+		}
+		if d == 5 {
+			// the original run tried to merge here and failed: repeat the attempt (without committing)
+			// so that term names and caches evolve exactly as they did then
+			p.decisions = append(p.decisions, 5)
+			p.logDec("branch@" + p.where(fr, pos))
+			p.tryMerge(fr, in, c, pos, false)
+		}
+		if p.forkBool(c, fr, pos) {
+			return brTrue
+		}
+		return brFalse
+	}
+	if di >= p.E.Cfg.MaxDecisions {
+		p.abort("inconclusive", fmt.Sprintf("decision depth %d exceeded (unwinding limit) at %s", p.E.Cfg.MaxDecisions, p.where(fr, pos)))
+	}
+	// merging first: it needs no feasibility knowledge and saves both queries when it succeeds
+	if p.E.Cfg.NoMerge || p.E.noMergeSite(in) {
+		// no attempt, nothing logged
+	} else {
+		p.decisions = append(p.decisions, 4)
+		p.logDec("branch@" + p.where(fr, pos))
+		if m, ret := p.tryMerge(fr, in, c, pos, true); m {
+			if ret {
+				return brMergedReturn
+			}
+			return brMergedJoin
+		}
+		p.decisions[di] = 5 // attempted and failed: replays repeat the attempt
+		di++
+	}
+	rt := p.S.CheckAssumingK("branch", c.s)
+	rf := p.S.CheckAssumingK("branch", nc.s)
+	if rt == Unknown || rf == Unknown {
+		p.note("solver-unknown-at-branch:" + p.where(fr, pos))
+		p.res.Unknown++
+	}
+	tOK, fOK := rt != Unsat, rf != Unsat
+	switch {
+	case tOK && fOK:
+		p.res.Forks++
+		if p.E.Cfg.ProfileForks {
+			if p.res.ForkSites == nil {
+				p.res.ForkSites = map[string]int{}
+			}
+			p.res.ForkSites[p.where(fr, pos)+" in "+frName(fr)]++
+		}
+		alt := make([]int, di+1)
+		copy(alt, p.decisions)
+		alt[di] = 0
+		p.decisions = append(p.decisions, 1)
+		p.logDec("fork@" + p.where(fr, pos))
+		p.logPending(alt)
+		p.pending = append(p.pending, alt)
+		p.assertPC(c)
+		return brTrue
+	case tOK:
+		p.decisions = append(p.decisions, 3)
+		p.logDec("fork@" + p.where(fr, pos))
+		p.assertPC(c)
+		return brTrue
+	case fOK:
+		p.decisions = append(p.decisions, 2)
+		p.logDec("fork@" + p.where(fr, pos))
+		p.assertPC(nc)
+		return brFalse
+	}
+	p.abort("infeasible", "both branch sides infeasible at "+p.where(fr, pos))
+	return brFalse
 }
 
 // forkBool decides a symbolic condition, forking the path when both sides are feasible.
@@ -206,16 +377,34 @@ func (p *Path) forkBool(c *Term, fr *frame, pos token.Pos) bool {
 	if p.S == nil {
 		panic("engine: symbolic condition in concrete mode: " + c.s)
 	}
-	if p.knownTrue[c.s] {
+	if p.isKnown(c.s) {
 		return true
 	}
-	if p.knownTrue[p.tb.Not(c).s] {
+	if p.isKnown(p.tb.Not(c).s) {
 		return false
+	}
+	if p.side != nil {
+		// a fork that is not a branch instruction cannot be merged: only forced outcomes are allowed
+		nc := p.tb.Not(c)
+		rt := p.S.CheckAssumingK("fork-in-side", "(and " + p.side.s + " " + c.s + ")")
+		rf := p.S.CheckAssumingK("fork-in-side", "(and " + p.side.s + " " + nc.s + ")")
+		switch {
+		case rt != Unsat && rf != Unsat:
+			panic(mergeAbort{"non-branch fork"})
+		case rt != Unsat:
+			p.sideKnown[len(p.sideKnown)-1][c.s] = true
+			return true
+		case rf != Unsat:
+			p.sideKnown[len(p.sideKnown)-1][nc.s] = true
+			return false
+		}
+		panic(mergeAbort{"infeasible side"})
 	}
 	di := len(p.decisions)
 	if di < len(p.prefix) {
 		d := p.prefix[di]
 		p.decisions = append(p.decisions, d)
+		p.logDec("fork@" + p.where(fr, pos))
 		if d&1 == 1 {
 			p.assertPC(c)
 			return true
@@ -227,8 +416,8 @@ func (p *Path) forkBool(c *Term, fr *frame, pos token.Pos) bool {
 		p.abort("inconclusive", fmt.Sprintf("decision depth %d exceeded (unwinding limit) at %s", p.E.Cfg.MaxDecisions, p.where(fr, pos)))
 	}
 	nc := p.tb.Not(c)
-	rt := p.S.CheckAssuming(c.s)
-	rf := p.S.CheckAssuming(nc.s)
+	rt := p.S.CheckAssumingK("fork", c.s)
+	rf := p.S.CheckAssumingK("fork", nc.s)
 	if rt == Unknown || rf == Unknown {
 		p.note("solver-unknown-at-branch:" + p.where(fr, pos))
 		p.res.Unknown++
@@ -247,16 +436,20 @@ func (p *Path) forkBool(c *Term, fr *frame, pos token.Pos) bool {
 		alt := make([]int, di+1)
 		copy(alt, p.decisions)
 		alt[di] = 0
-		p.pending = append(p.pending, alt)
 		p.decisions = append(p.decisions, 1)
+		p.logDec("fork@" + p.where(fr, pos))
+		p.logPending(alt)
+		p.pending = append(p.pending, alt)
 		p.assertPC(c)
 		return true
 	case tOK:
 		p.decisions = append(p.decisions, 3) // forced true
+		p.logDec("fork@" + p.where(fr, pos))
 		p.assertPC(c)
 		return true
 	case fOK:
 		p.decisions = append(p.decisions, 2) // forced false
+		p.logDec("fork@" + p.where(fr, pos))
 		p.assertPC(nc)
 		return false
 	}
@@ -265,6 +458,46 @@ func (p *Path) forkBool(c *Term, fr *frame, pos token.Pos) bool {
 }
 
 // choose picks one of n alternatives (all feasible by construction), forking.
+var alignOn = os.Getenv("VERIF_ALIGN") != ""
+var alignMu sync.Mutex
+var alignTab = map[string][]string{}
+
+func prefixKey(pre []int) string { return fmt.Sprint(pre) }
+
+// logDec keeps, for debugging decision-log alignment, where each decision was taken.
+func (p *Path) logDec(where string) {
+	if !alignOn {
+		return
+	}
+	i := len(p.decisions) - 1
+	for len(p.decWhere) <= i {
+		p.decWhere = append(p.decWhere, "")
+	}
+	p.decWhere = p.decWhere[:i+1]
+	p.decWhere[i] = where
+	if i < len(p.expWhere) && p.expWhere[i] != "" && p.expWhere[i] != where {
+		lo := i - 8
+		if lo < 0 {
+			lo = 0
+		}
+		fmt.Fprintf(os.Stderr, "MISALIGN at %d\n  recorded: %v\n  replayed: %v + %s\n  prefix: %v\n", i, p.expWhere[lo:min(i+3, len(p.expWhere))], p.decWhere[lo:i], where, p.prefix[lo:min(i+3, len(p.prefix))])
+		p.abort("inconclusive", fmt.Sprintf("decision log misaligned at %d: recorded at %s, replayed at %s", i, p.expWhere[i], where))
+	}
+}
+
+func (p *Path) logPending(alt []int) {
+	if !alignOn {
+		return
+	}
+	alignMu.Lock()
+	w := append([]string(nil), p.decWhere...)
+	for len(w) < len(alt) {
+		w = append(w, "")
+	}
+	alignTab[prefixKey(alt)] = w[:len(alt)]
+	alignMu.Unlock()
+}
+
 func frName(fr *frame) string {
 	if fr == nil {
 		return "?"
@@ -276,10 +509,14 @@ func (p *Path) choose(n int, what string) int {
 	if n <= 1 {
 		return 0
 	}
+	if p.side != nil {
+		panic(mergeAbort{"choice inside a side"})
+	}
 	di := len(p.decisions)
 	if di < len(p.prefix) {
 		d := p.prefix[di]
 		p.decisions = append(p.decisions, d)
+		p.logDec("choice:" + what)
 		return d >> 2
 	}
 	if p.S == nil {
@@ -290,10 +527,14 @@ func (p *Path) choose(n int, what string) int {
 	if di >= p.E.Cfg.MaxDecisions {
 		p.abort("inconclusive", "decision depth exceeded in choice "+what)
 	}
+	p.decisions = append(p.decisions, 0)
+	p.logDec("choice:" + what)
+	p.decisions = p.decisions[:di]
 	for i := 1; i < n; i++ {
 		alt := make([]int, di+1)
 		copy(alt, p.decisions)
 		alt[di] = i << 2
+		p.logPending(alt)
 		p.pending = append(p.pending, alt)
 	}
 	p.res.Forks += n - 1
@@ -316,12 +557,16 @@ func (p *Path) concretize(t *Term, signed bool, fr *frame, pos token.Pos) int64 
 		}
 		return int64(t.u)
 	}
+	if p.side != nil {
+		panic(mergeAbort{"concretization inside a side"})
+	}
 	for {
 		var v int64
 		di := len(p.decisions)
 		if di < len(p.prefix) {
 			v = int64(p.prefix[di] >> 2)
 			p.decisions = append(p.decisions, p.prefix[di])
+			p.logDec("concretize@" + p.where(fr, pos))
 		} else {
 			if di >= p.E.Cfg.MaxDecisions {
 				p.abort("inconclusive", fmt.Sprintf("decision depth %d exceeded while concretizing at %s", p.E.Cfg.MaxDecisions, p.where(fr, pos)))
@@ -345,6 +590,7 @@ func (p *Path) concretize(t *Term, signed bool, fr *frame, pos token.Pos) int64 
 				v = int64(u)
 			}
 			p.decisions = append(p.decisions, int(v)<<2)
+			p.logDec("concretize@" + p.where(fr, pos))
 		}
 		if p.forkBool(p.tb.Eq(t, BVConst(uint64(v), t.S.W)), fr, pos) {
 			return v
@@ -394,6 +640,9 @@ func constStr(t *Term) string {
 
 // checkAssert discharges an assertion on the current path.
 func (p *Path) checkAssert(c *Term, kind, msg string, fr *frame, pos token.Pos) {
+	if p.side != nil {
+		panic(mergeAbort{"assertion inside a side"})
+	}
 	if c.c {
 		p.res.AssertsConst++
 		if c.u != 0 {
@@ -612,7 +861,7 @@ func (e *Engine) newPath(s *Solver, prefix []int) *Path {
 	}
 	p.res = &PathResult{Status: "ok"}
 	if e.initGlobals != nil {
-		c := newCloner()
+		c := newCloner(p)
 		p.globals = make(map[*ssa.Global]*Obj, len(e.initGlobals))
 		for g, o := range e.initGlobals {
 			p.globals[g] = c.obj(o)
@@ -625,6 +874,11 @@ func (e *Engine) newPath(s *Solver, prefix []int) *Path {
 // RunPath executes the harness along the given decision prefix.
 func (e *Engine) RunPath(s *Solver, h *ssa.Function, prefix []int) (res *PathResult, pending [][]int) {
 	p := e.newPath(s, prefix)
+	if alignOn {
+		alignMu.Lock()
+		p.expWhere = alignTab[prefixKey(prefix)]
+		alignMu.Unlock()
+	}
 	if s != nil {
 		s.Send("(push 1)")
 		defer s.Send("(pop 1)")
@@ -711,6 +965,7 @@ func (e *Engine) RunPath(s *Solver, h *ssa.Function, prefix []int) (res *PathRes
 	res.Steps = p.steps
 	res.Assumes = p.assumes
 	res.Recovered = p.recovered
+	res.MergeStats = p.mergeStats
 	if s != nil {
 		if errs := s.TakeErrors(); len(errs) > 0 {
 			res.Status = "inconclusive"
@@ -742,6 +997,7 @@ type ObligationResult struct {
 	Forks     int
 	InconclusiveReasons map[string]int
 	Witnesses []*Witness
+	MergeStats [3]int
 	ForkSites map[string]int
 	Truncated bool
 	SamplePaths []string
@@ -857,6 +1113,9 @@ func (e *Engine) Explore(id string, h *ssa.Function) *ObligationResult {
 						R.ForkSites = map[string]int{}
 					}
 					R.ForkSites[k] += v
+				}
+				for k := range R.MergeStats {
+					R.MergeStats[k] += res.MergeStats[k]
 				}
 				R.Violations = append(R.Violations, res.Violations...)
 				if res.Witness != nil {
